@@ -587,6 +587,10 @@ UNDECIDED_STAND_IN = {
     "C04": ["lifecycle_basic", "run_err", "start_fail", "stop_err_on_kill", "hook_panics"],
 }
 
+# labels of obligations that only exist for code the change itself added (new panic sites): a failure is a violation only when a
+# witness or the explorer makes it fire on the real crate, otherwise the property is undecided
+SOFT_LABELS = {"framework.no_unexpected_panic"}
+
 NOT_APPLICABLE = {
     "C19": "proc-macro token generation (syn/quote) is outside every installed deductive verifier; the runtime half "
            "(on_tell_result only on tell) is an obligation of handle_message reported under C03",
